@@ -22,8 +22,8 @@ from vf import cel, common, gen, ir, localize, outcome, refcel
 RULE = (
     "every subset of {a, a.b, a.b.c} bound as scalar or as a map holding the rest of the path, declared at each package level (root, p, p.q) and at two "
     "levels at once, x package in {none, p, p.q} x references {a, a.b, a.b.c, a.b.d, .a, .a.b, .a.b.c} x {no annotations, annotations for every bound name}; "
-    "random binding sets over a 4-letter alphabet, depth 4 (Hypothesis); programs with nested macros over x/y colliding with outer x/y vs the reference "
-    "evaluator. non-trivial = >= 2 bindings compete for the reference, or a package level is skipped, or a macro variable collides with an outer name. "
+    "random binding sets over a 4-letter alphabet, depth 4 (Hypothesis); programs with nested macros over x/y colliding with outer x/y, and macros nested 2-3 deep whose inner bodies "
+    "read the outer iteration variables, vs the reference evaluator. non-trivial = >= 2 bindings compete for the reference, or a package level is skipped, or a macro variable collides with an outer name. "
     "distinct by (bindings, package, reference)."
 )
 ERR = ("error",)
@@ -323,6 +323,8 @@ def campaign(run: common.Run) -> None:
     common.drive(run, body_res, {"c": random_bindings()}, 800 if q else 12000, seed_salt=1)
     common.drive(run, body_scope, {"p": gen.typed_program(4, ["bool", "int", "list<int>", "list<list<int>>", "list<string>"], SCOPE_KINDS, {"exclude": ("typeof", "matches", "conv")})},
                  1500 if q else 20000, seed_salt=2)
+    # macros nested 2-3 deep whose inner bodies read the outer iteration variables; x and y are also bound at top level, so every level shadows something
+    common.drive(run, body_scope, {"p": gen.nested_macro_program(SCOPE_KINDS)}, 500 if q else 8000, seed_salt=3)
 
 
 def main(run: common.Run) -> None:
